@@ -335,6 +335,13 @@ pub fn debug_gen() {
 
 #[allow(dead_code)]
 pub fn debug_feel(exprs: &[String]) {
+  // VERIF_DEBUG_DATE=2021-03-28 sets the simulated date (the process time zone is TZ, as always)
+  if let Ok(d) = std::env::var("VERIF_DEBUG_DATE") {
+    let p: Vec<i64> = d.split('-').filter_map(|x| x.parse().ok()).collect();
+    if p.len() == 3 {
+      simrt::clock_set(simrt::days_from_civil(p[0] as i32, p[1] as u8, p[2] as u8), 0);
+    }
+  }
   for e in exprs {
     let scope = dmntk_feel::Scope::default();
     let ctx = dmntk_feel_evaluator::evaluate_context(&scope, r#"{x: 7, s: "ab12_34"}"#).unwrap();
